@@ -244,7 +244,7 @@ def correspondence(ctx):
     for f in sorted(glob.glob(os.path.join(os.path.dirname(__file__), "..", "..", "corpus", "C05", "*.json"))):
         replay(ctx, json.load(open(f)))
     eps_delta(ctx)
-    diagrams(ctx, ctx.budget(500, 12000))
+    diagrams(ctx, ctx.budget(500, 6000))
     tensor_ops(ctx, ctx.budget(150, 3000))
     eps_delta(ctx)
 
